@@ -443,6 +443,13 @@ func (a *Analyzer) buildDependencies(info *ConstructorInfo) []*Dependency {
 			dep.Type = param.ElemType
 		}
 
+		// A group field is filled by group alone: a name tag next to the group
+		// tag is ignored at run time and must not hide the dependency from the
+		// build-time validations either
+		if param.Group != "" {
+			dep.Key = nil
+		}
+
 		deps = append(deps, dep)
 	}
 
